@@ -16,11 +16,12 @@ DOC = {
         'C20.R1': 'every arm of execute: maybe_lock(<path to be affected>, should_lock) dominates every mutating call and its result is propagated',
         'C20.R2': 'maybe_lock maps only ErrorKind::Unsupported to Ok(None); lock=false is the only other Ok(None)',
         'C20.R3': 'FileLock::new: write-open, then fcntl(F_SETLK, F_WRLCK) over the whole file (l_start = l_len = 0); every failure returns Err',
+        'C20.R7': 'the lock is held for the duration of the operation: in every arm of execute the Option<FileLock> returned by maybe_lock is dropped only after the last mutating call of the arm (a guard bound with `let _ =` is dropped immediately, which turns the lock into a probe)',
         'C20.R6': 'taking the lock needs no permission that the operation itself does not need (removing / replacing a name needs write access to the directory, not to the file): when the write-open is denied, FileLock::new falls back to a read-only open and a lock probe instead of failing - otherwise read-only duplicates are listed by --dry-run (and removed by its script) but skipped with an error by the real run',
         'C20.R5': 'FileLock::new never opens through a symbolic link (lstat test on the false edge before the open, or O_NOFOLLOW): the commands act on the link itself, so the lock of the file it points to is irrelevant and the open fails once that file is gone - a link reported with -S whose target is dropped first was left dangling by the real run while the dry run removes it',
         'C20.R4': 'run_script passes !no_lock as should_lock to execute',
     },
-    'not_decided': 'semantics of fcntl locks in the kernel; that the lock is still held while the operation runs (it is released right after the attempt - the property only asks that a foreign lock makes the attempt fail)',
+    'not_decided': 'semantics of fcntl locks in the kernel (until D104 the lock was only a probe - the guard was dropped at once - and I had written that off as sufficient; C20.R7 now requires the guard to outlive the operation)',
     'assumptions': ['FileLock::new is the only lock primitive', 'the table of mutating primitives (callgraph.SINKS) is complete for the crates fclones uses'],
 }
 
@@ -56,11 +57,47 @@ def run(ctx):
     ex = ctx.need_body('C20.R1', EXEC)
     if ex is not None:
         r1(ctx, lib, cg, ex)
+        r7(ctx, lib, cg, ex)
     r2(ctx, lib)
     r3(ctx, lib)
     r4(ctx, lib)
     r5(ctx, lib)
     r6(ctx, lib)
+
+
+def r7(ctx, lib, cg, ex):
+    """The lock is held while the file is operated on: the guard returned by maybe_lock is not dropped before the mutating calls of its arm."""
+    rule = 'C20.R7'
+    arms = variant_arms(ex, lib, 1)
+    if not arms:
+        return
+    sw, arm_map, _ = arms[0]
+    n = 0
+    for var, tgt in sorted(arm_map.items()):
+        region = dominated_region(ex, tgt)
+        locks = [c for c in ex.calls(r'FsCommand::maybe_lock$') if c.bb in region]
+        if not locks:
+            continue
+        L = locks[0]
+        mut = []
+        for c in ex.calls():
+            if c.bb not in region or c.matches(r'FsCommand::maybe_lock$'):
+                continue
+            if (sink_kind(c) and not c.f.get('local')) or (c.f.get('local') and c.path in cg.bodies and cg.may_mutate(c.path)) or (c.f.get('self_closure') and cg.may_mutate(c.f['self_closure'])):
+                mut.append(c)
+        if not mut:
+            continue
+        n += 1
+        # the drops of a value of type Option<FileLock> / FileLock in this arm (normal control flow only)
+        drops = [bi for bi in region if not ex.blocks[bi]['cleanup'] and ex.blocks[bi]['term']['k'] == 'drop'
+                 and 'FileLock' in ex.local_ty(ex.blocks[bi]['term']['p'][0])]
+        early = [d for d in drops if any(m.bb in ex.reachable(d) for m in mut)]
+        ctx.check(bool(drops) and not early, rule, '%s|arm=%s|guard-outlives-operation' % (EXEC, var), (ex.where(ex.blocks[early[0]]['term']['line']) if early else L.where()),
+                  'the lock guard is dropped only after the mutating calls of the arm',
+                  'the guard returned by maybe_lock is dropped at once (`let _ = ..` does not bind it): FileLock::drop sends F_UNLCK before rename / link / unlink / the copy start, so the "lock" is a probe '
+                  'at one instant - a process that locks the file a moment later gets the lock, writes under it, and its file is replaced or removed all the same (strace: F_SETLK F_WRLCK = 0, '
+                  'F_SETLK F_UNLCK = 0, rename .., linkat .., unlink ..)')
+    ctx.floor(rule, 'arms of execute that lock and mutate', n, 5, ex.where())
 
 
 def r1(ctx, lib, cg, ex):
